@@ -12,7 +12,6 @@ CONSTANTS
   MaxBig = 0
   AllowClose = TRUE
   MaxAhead = 2
-  FixD1 = TRUE
   FixD3 = TRUE
   FixD4 = TRUE
   FixD5 = TRUE
